@@ -95,3 +95,46 @@ Example C15_inference_examples :
   suggest_wrap (JObj [(Jwe.s_kty, JStr t_RSA)]) = Some n_RSAOAEP /\
   suggest_wrap (JObj [(Jwe.s_kty, JStr t_EC); (s_crv, JStr c_P521)]) = Some n_ECDHES256.
 Proof. vm_compute. repeat split. Qed.
+
+(* ---- the protected header already encoded (base64url text) in an encryption template: /repo 54a50c4 *)
+
+(* the caller's "enc" inside the encoded header is the one applied; the object is not rewritten *)
+Theorem C15_encoded_protected_enc_respected : forall ealgs m cek s pm h a,
+  alookup s_protected m = Some (JStr s) -> jose_b64_dec_load (JStr s) = Some (JObj pm) ->
+  alookup s_enc pm = Some (JStr h) -> alookup s_unprotected m = None ->
+  get_opt_str s_alg cek = OAbsent -> find_encr ealgs (cstr h) = Some a ->
+  jwk_prm cek false (Some (ea_eprm a)) = true ->
+  enc_cek_prepare ealgs (JObj m) cek = Some (a, JObj m).
+Proof. exact enc_cek_encoded_caller. Qed.
+Print Assumptions C15_encoded_protected_enc_respected.
+
+(* an inferred "enc" goes to the shared unprotected header, the encoded protected header stays untouched *)
+Theorem C15_encoded_protected_enc_inferred : forall ealgs m cek s pm k a,
+  alookup s_protected m = Some (JStr s) -> jose_b64_dec_load (JStr s) = Some (JObj pm) ->
+  alookup s_enc pm = None -> alookup s_unprotected m = None ->
+  get_opt_str s_alg cek = OStr k -> find_encr ealgs k = Some a ->
+  jwk_prm cek false (Some (ea_eprm a)) = true ->
+  enc_cek_prepare ealgs (JObj m) cek =
+    Some (a, JObj (aset s_unprotected (JObj [(s_enc, JStr (ea_name a))]) m)).
+Proof. exact enc_cek_encoded_inferred. Qed.
+Print Assumptions C15_encoded_protected_enc_inferred.
+
+(* text that does not decode to a JSON object is refused *)
+Theorem C15_encoded_protected_undecodable : forall ealgs m cek s,
+  alookup s_protected m = Some (JStr s) ->
+  (forall pm, jose_b64_dec_load (JStr s) <> Some (JObj pm)) ->
+  enc_cek_prepare ealgs (JObj m) cek = None.
+Proof. exact enc_cek_encoded_undecodable. Qed.
+Print Assumptions C15_encoded_protected_undecodable.
+
+(* non-vacuity, with the real algorithm table: {"protected":"eyJhbGciOiJBMTI4S1cifQ"} (= {"alg":"A128KW"}) and a content
+   key declaring A128GCM: the algorithm is applied and recorded in the shared unprotected header *)
+From JoseV Require Import Jose.EncAlgs.
+Example C15_ex_encoded_protected :
+  let b := [101;121;74;104;98;71;99;105;79;105;74;66;77;84;73;52;83;49;99;105;102;81] in
+  let n := [65;49;50;56;71;67;77] in
+  let cek := JObj [(Jwe.s_kty, JStr t_oct); ([107], JStr [109;50;115;55;115;87;55;109;77;68;117;110;49;67;90;49;79;88;108;90;65;81]); (s_alg, JStr n)] in
+  exists a m', enc_cek_prepare real_sug_encr (JObj [(s_protected, JStr b)]) cek = Some (a, JObj m') /\
+               ea_name a = n /\ alookup s_unprotected m' = Some (JObj [(s_enc, JStr n)]) /\
+               alookup s_protected m' = Some (JStr b).
+Proof. vm_compute. eexists. eexists. repeat split. Qed.
